@@ -1,7 +1,7 @@
 #!/bin/bash
 # usage: run_benign.sh <dir-with-patch.diff>...  -- applies each behaviour-preserving patch to a scratch worktree and runs ALL checks;
 # any VIOLATED/UNDECIDED line is a false alarm of the machinery (development aid).
-WT=/tmp/mutcheck; VD=/tmp/mutcheck-verif
+WT=${WT:-/tmp/bencheck}; VD=${VD:-/tmp/bencheck-verif}
 [ -d $WT ] || git -C /repo worktree add --detach $WT HEAD >/dev/null 2>&1
 git -C $WT checkout -q --detach $(git -C /repo rev-parse HEAD) 2>/dev/null
 mkdir -p $VD; cp /verif/known_findings.json $VD/
